@@ -764,6 +764,10 @@ func c19R2(c *Ctx, a *c19Anchors) {
 						agg.fail(key, P, in, p, "the manifest is pushed although time.Parse of the given created time may have failed (a malformed created time must be rejected without pushing a manifest)")
 					case !sxSame(ann, req):
 						agg.fail(key, P, in, p, "with a valid created time the manifest annotations are not the caller's (got "+sxDescribe(ann)+")")
+					case c19Updated(p, n, req):
+						agg.fail(key, P, in, p, "with a valid created time the caller's annotation map is written to: the manifest annotations are not exactly the requested ones")
+					case c19UsesClock(e.manifest) || c19UsesClock(e.desc):
+						agg.fail(key, P, in, p, "although a created time is given, the current time flows into the manifest or its descriptor: identical inputs would not give an identical descriptor")
 					case !sxSame(dann, ann):
 						agg.fail(key, P, in, p, "the annotations of the returned descriptor differ from manifest.Annotations")
 					default:
@@ -832,6 +836,28 @@ func c19R2(c *Ctx, a *c19Anchors) {
 		}
 	}
 	agg.flush()
+}
+
+// c19Updated: the map is stored into before fact index n.
+func c19Updated(p *sxPath, n int, m sxVal) bool {
+	for _, u := range p.Updates {
+		if u.NFacts <= n && sxSame(u.Map, m) {
+			return true
+		}
+	}
+	return false
+}
+
+// c19UsesClock: a time.Now() result flows into the term.
+func c19UsesClock(v sxVal) bool {
+	found := false
+	sxWalk(v, func(x sxVal) bool {
+		if cl, ok := x.(sxCall); ok && cl.rec.Name == "time.Now" {
+			found = true
+		}
+		return !found
+	})
+	return found
 }
 
 // c19RangeCopied: a `for k, v := range src { dst[k] = v }` loop ran on the
@@ -907,7 +933,7 @@ func c19PairOK(d, b sxVal, allowed map[string]bool) (bool, string) {
 
 func c19R3(c *Ctx, a *c19Anchors) {
 	const R3 = "C19.R3.descriptor-matches-bytes"
-	c.Expect(R3, 16)
+	c.Expect(R3, 17)
 	agg := newC19Agg(c, R3)
 	for _, M := range []*c19Mode{a.v10, a.v11, a.rc2, a.artifact} {
 		P := M.entry
@@ -999,6 +1025,51 @@ func c19R3(c *Ctx, a *c19Anchors) {
 		}
 	}
 	agg.flush()
+	// the constructor every descriptor above rests on: digest and size are those of the bytes given
+	c19Constructor(c, R3)
+}
+
+// c19Constructor: content.NewDescriptorFromBytes(mediaType, b) returns
+// {Digest: digest.FromBytes(b), Size: len(b), MediaType: mediaType or, when empty, the default}.
+func c19Constructor(c *Ctx, rule string) {
+	N := c.P.Fn("content", "NewDescriptorFromBytes")
+	if N == nil || len(N.Params) != 2 {
+		c.LostAnchor(rule, "content.NewDescriptorFromBytes(mediaType, content)")
+		return
+	}
+	def, okDef := c19ConstString(c.P, "internal/descriptor", "DefaultMediaType")
+	mt, b := sxParam{N.Params[0]}, sxParam{N.Params[1]}
+	res := sxPathsInline(N, "c19", sxHelper)
+	ok, why := res.Err == "" && len(res.Paths) > 0, res.Err
+	descT := c19DescType(c)
+	for _, p := range res.Paths {
+		if p.Ret == nil {
+			continue
+		}
+		d := p.Ret[0]
+		dg, _ := sxFieldByName(d, descT, "Digest")
+		sz, _ := sxFieldByName(d, descT, "Size")
+		m, _ := sxFieldByName(d, descT, "MediaType")
+		okDg := false
+		if cl, isCall := dg.(sxCall); isCall && (cl.rec.Name == "digest.FromBytes" || cl.rec.Name == "(digest.Algorithm).FromBytes") && sxSame(cl.rec.Args[len(cl.rec.Args)-1], b) {
+			okDg = true
+		}
+		okSz := false
+		if op, isOp := sz.(sxOp); isOp && strings.HasPrefix(op.op, "convert:") && len(op.args) == 1 && sxSame(op.args[0], sxOp{"len", []sxVal{b}}) {
+			okSz = true
+		}
+		okMT := sxSame(m, mt) && !p.IsEmptyString(-1, mt) || okDef && p.IsEmptyString(-1, mt) && sxSame(m, sxStr(def))
+		switch {
+		case !okDg:
+			ok, why = false, "Digest is not digest.FromBytes(content) (got "+sxDescribe(dg)+")"
+		case !okSz:
+			ok, why = false, "Size is not len(content) (got "+sxDescribe(sz)+")"
+		case !okMT:
+			ok, why = false, "MediaType is neither the given one nor, for an empty one, the default (got "+sxDescribe(m)+")"
+		}
+	}
+	c.Check(rule, "~/content.NewDescriptorFromBytes|describes-its-bytes", N.Pos(), ok,
+		ifelse(ok, "Digest = digest.FromBytes(content), Size = len(content), MediaType = the given one (default when empty) on every path", why))
 }
 
 // ---------- R4 ----------
@@ -1099,7 +1170,7 @@ func c19R4(c *Ctx, a *c19Anchors) {
 
 func c19R5(c *Ctx, a *c19Anchors) {
 	const R5 = "C19.R5.requested-fields-emitted"
-	c.Expect(R5, 18)
+	c.Expect(R5, 21)
 	agg := newC19Agg(c, R5)
 	imageMT, ok1 := c19ConstString(c.P, "github.com/opencontainers/image-spec/specs-go/v1", "MediaTypeImageManifest")
 	artMT, ok2 := c19ConstString(c.P, "internal/spec", "MediaTypeArtifactManifest")
@@ -1164,6 +1235,14 @@ func c19R5(c *Ctx, a *c19Anchors) {
 				}
 				check("mediaType", sxSame(field("MediaType"), sxStr(wantMT)) && sxSame(descMT, sxStr(wantMT)),
 					"manifest.MediaType and the descriptor media type are "+wantMT, "manifest.MediaType / the descriptor media type is not "+wantMT)
+				if M != a.artifact {
+					sv := sxVal(nil)
+					if v, ok := sxFieldNamed(e.manifest, "Versioned"); ok {
+						sv, _ = sxFieldNamed(v, "SchemaVersion")
+					}
+					check("schemaVersion", sv != nil && sxSame(sv, sxInt(2)), "manifest.schemaVersion = 2",
+						"the image manifest does not carry schemaVersion 2 (got "+sxDescribe(sv)+"): registries reject it")
+				}
 				if M != a.v10 {
 					check("subject", reqSubject != nil && sxSame(field("Subject"), reqSubject), "manifest.Subject = opts.Subject",
 						"manifest.Subject is not opts.Subject (got "+sxDescribe(field("Subject"))+"): the requested subject is lost")
@@ -1414,6 +1493,16 @@ var c19Mutants = []Mutant{
 		New: "\t\t_ = configBytes\n\t\temptyBlobExists = len(opts.Layers) > 0", Expect: "C19.R4"},
 	{Name: "push-skipped-on-small-blobs", File: "pack.go",
 		Old: "\t\tif exists {\n\t\t\treturn nil\n\t\t}\n\t}\n\n\tif err := pusher.Push(ctx, desc, bytes.NewReader(data))", New: "\t\tif exists || desc.Size == 2 {\n\t\t\treturn nil\n\t\t}\n\t}\n\n\tif err := pusher.Push(ctx, desc, bytes.NewReader(data))", Expect: "C19.R4"},
+	{Name: "descriptor-size-is-capacity", File: "content/descriptor.go",
+		Old: "\t\tSize:      int64(len(content)),", New: "\t\tSize:      int64(cap(content)),", Expect: "C19.R3"},
+	{Name: "v10-schema-version-dropped", File: "pack.go",
+		Old: "\t\t\tSchemaVersion: 2, // historical value. does not pertain to OCI or docker version\n\t\t},\n\t\tConfig:      configDesc,\n\t\tMediaType:   ocispec.MediaTypeImageManifest,\n\t\tLayers:      opts.Layers,\n\t\tAnnotations: annotations,",
+		New: "\t\t},\n\t\tConfig:      configDesc,\n\t\tMediaType:   ocispec.MediaTypeImageManifest,\n\t\tLayers:      opts.Layers,\n\t\tAnnotations: annotations,", Expect: "C19.R5"},
+	{Name: "given-created-time-normalised-in-place", File: "pack.go",
+		Old: "\t\tif _, err := time.Parse(time.RFC3339, createdTime); err != nil {\n\t\t\treturn nil, fmt.Errorf(\"%w: %v\", ErrInvalidDateTimeFormat, err)\n\t\t}\n\t\treturn annotations, nil",
+		New: "\t\tt, err := time.Parse(time.RFC3339, createdTime)\n\t\tif err != nil {\n\t\t\treturn nil, fmt.Errorf(\"%w: %v\", ErrInvalidDateTimeFormat, err)\n\t\t}\n\t\tannotations[annotationCreatedKey] = t.Format(time.RFC3339)\n\t\treturn annotations, nil", Expect: "C19.R2"},
+	{Name: "created-time-restamped-when-given", File: "pack.go",
+		Old: "\t\treturn annotations, nil\n\t}\n\n\t// copy the original annotation map", New: "\t\tannotations[\"org.opencontainers.image.packed\"] = time.Now().UTC().Format(time.RFC3339)\n\t\treturn annotations, nil\n\t}\n\n\t// copy the original annotation map", Expect: "C19.R2"},
 	{Name: "v11-subject-dropped", File: "pack.go",
 		Old: "\t\tSubject:      opts.Subject,\n\t\tArtifactType: artifactType,\n\t\tAnnotations:  annotations,\n\t}\n\treturn pushManifest(ctx, pusher, manifest, manifest.MediaType, manifest.ArtifactType, manifest.Annotations)\n}\n\n// pushIfNotExist",
 		New: "\t\tArtifactType: artifactType,\n\t\tAnnotations:  annotations,\n\t}\n\treturn pushManifest(ctx, pusher, manifest, manifest.MediaType, manifest.ArtifactType, manifest.Annotations)\n}\n\n// pushIfNotExist", Expect: "C19.R5"},
